@@ -399,6 +399,84 @@ pub fn cmd_iters(out: &str, seed: u64, thorough: bool) {
         writeln!(f, "{{\"ev\":\"setiter\",\"fmt\":\"{}\",\"input\":{},\"cap\":{},\"sets\":[{}],\"owned_after\":{:?},\"hints_ok\":{}}}", fmt, jb(&x), cap, sets.join(","), owned_after, hints_ok).unwrap();
         n += 1;
     }
+    // owned-record iterators: the size hint must bracket the number of items still to come at every step
+    let mut owned_inputs: Vec<(String, Vec<u8>)> = vec![];
+    for k in 0..4usize {
+        for crlf in [false, true] {
+            let eol: &[u8] = if crlf { b"\r\n" } else { b"\n" };
+            let mut fq = vec![];
+            let mut fa = vec![];
+            for r in 0..2 {
+                for l in [&b"@id d"[..], &b"ACGT"[..], &b"+"[..], &b"IIII"[..]] {
+                    fq.extend(l);
+                    fq.extend(eol);
+                }
+                fa.extend(if r == 0 { &b">a b"[..] } else { &b">c"[..] });
+                fa.extend(eol);
+                fa.extend(b"ACG");
+                fa.extend(eol);
+            }
+            for _ in 0..k {
+                fq.extend(eol);
+                fa.extend(eol);
+            }
+            owned_inputs.push(("fastq".into(), fq));
+            owned_inputs.push(("fasta".into(), fa));
+        }
+    }
+    for k in 0..nsets {
+        let fmt = if k % 2 == 0 { "fasta" } else { "fastq" };
+        owned_inputs.push((fmt.to_string(), crate::gen::rand_struct(&mut rng, fmt, &serde_json::json!({"maxrec": 4, "maxfield": 4, "damage": 25}))));
+    }
+    for (fmt, x) in &owned_inputs {
+        for cap in [3usize, 16, 64] {
+            for into in [false, true] {
+                let mut hints: Vec<String> = vec![];
+                let mut items = 0usize;
+                let mut step = |hint: (usize, Option<usize>), some: bool| {
+                    hints.push(format!("[{},{}]", hint.0, hint.1.map(|h| h as i64).unwrap_or(-1)));
+                    if some {
+                        items += 1;
+                    }
+                };
+                macro_rules! drive {
+                    ($it:expr) => {{
+                        let mut it = $it;
+                        let mut guard = 0;
+                        loop {
+                            let h = it.size_hint();
+                            let nx = it.next();
+                            step(h, nx.is_some());
+                            guard += 1;
+                            if nx.is_none() || guard > 64 {
+                                break;
+                            }
+                        }
+                        let h = it.size_hint();
+                        let nx = it.next();
+                        step(h, nx.is_some());
+                    }};
+                }
+                if fmt == "fasta" {
+                    let mut rdr = fasta::Reader::with_capacity(&x[..], cap);
+                    if into {
+                        drive!(rdr.into_records())
+                    } else {
+                        drive!(rdr.records())
+                    }
+                } else {
+                    let mut rdr = fastq::Reader::with_capacity(&x[..], cap);
+                    if into {
+                        drive!(rdr.into_records())
+                    } else {
+                        drive!(rdr.records())
+                    }
+                }
+                writeln!(f, "{{\"ev\":\"ownediter\",\"fmt\":\"{}\",\"input\":{},\"cap\":{},\"into\":{},\"hints\":[{}],\"items\":{}}}", fmt, jb(x), cap, into, hints.join(","), items).unwrap();
+                n += 1;
+            }
+        }
+    }
     f.flush().unwrap();
     println!("{{\"cases\":{}}}", n);
 }
